@@ -158,6 +158,99 @@ Fixpoint exec_e (body : list estep) (ival : Z) (s : ts) (r : option Z) : ts * op
   | EAssignErrno :: rest => exec_e rest ival (mkTs ival (saved s)) r
   end.
 
+(* ---- control flow of the functions that bracket a callback (cffi_call_python, call_python.c:205;
+   invoke_callback, _cffi_backend.c:6360), regenerated statement by statement into C22/Gen.v.
+   Every statement of the function body is one of the constructors below (the translator refuses
+   anything else); the conditions of `if` are not interpreted: the theorems quantify over ALL
+   syntactic paths, a superset of the feasible ones. *)
+Inductive noise := NGilEnsure | NGilRelease | NUpdateCache | NReport | NMemset.
+Inductive cstmt :=
+| CPure                      (* declarations, assignments to locals, read_barrier(): errno untouched *)
+| CSave                      (* save_errno();    *)
+| CRestore                   (* restore_errno(); *)
+| CInvoke                    (* general_invoke_callback(...): the Python code of the callback runs,
+                                including its error path (traceback on stderr / the onerror handler) *)
+| CNoise (k : noise)         (* library / interpreter code that may leave anything in errno:
+                                gil_ensure(), gil_release(), _update_cache_to_call_python(),
+                                fprintf(stderr, ...) (the error report), memset() *)
+| CIf (a b : list cstmt)     (* if (...) { a } else { b } *)
+| CReturn.                   (* return; *)
+
+Inductive ev := VSave | VRestore | VInvoke | VNoise (k : noise).
+
+(* paths: the events executed, and whether the path ended in `return` *)
+Definition seqp (p q : list (list ev * bool)) : list (list ev * bool) :=
+  flat_map (fun x : list ev * bool => if snd x then [x] else map (fun y : list ev * bool => (fst x ++ fst y, snd y)) q) p.
+Fixpoint spaths (s : cstmt) : list (list ev * bool) :=
+  match s with
+  | CPure => [([], false)]
+  | CSave => [([VSave], false)]
+  | CRestore => [([VRestore], false)]
+  | CInvoke => [([VInvoke], false)]
+  | CNoise k => [([VNoise k], false)]
+  | CReturn => [([], true)]
+  | CIf a b =>
+      (fix bl (l : list cstmt) : list (list ev * bool) :=
+         match l with [] => [([], false)] | x :: r => seqp (spaths x) (bl r) end) a ++
+      (fix bl (l : list cstmt) : list (list ev * bool) :=
+         match l with [] => [([], false)] | x :: r => seqp (spaths x) (bl r) end) b
+  end.
+Definition bpaths (l : list cstmt) : list (list ev * bool) :=
+  fold_right (fun x acc => seqp (spaths x) acc) [([], false)] l.
+Definition cfg_paths (l : list cstmt) : list (list ev) := map fst (bpaths l).
+
+Definition is_touch (e : ev) : bool := match e with VInvoke | VNoise _ => true | _ => false end.
+Definition is_invoke (e : ev) : bool := match e with VInvoke => true | _ => false end.
+Definition has_invoke (p : list ev) : bool := existsb is_invoke p.
+Definition count_invoke (p : list ev) : nat := length (filter is_invoke p).
+(* the shape every path of a callback bracket must have: save_errno() first, restore_errno() last,
+   everything that can touch errno (Python code, error reporting, GIL, ...) strictly in between,
+   the Python code at most once *)
+Definition cb_path_ok (p : list ev) : bool :=
+  match p with
+  | VSave :: rest =>
+      match rev rest with
+      | VRestore :: rmid => forallb is_touch rmid && (count_invoke rmid <=? 1)%nat
+      | _ => false
+      end
+  | _ => false
+  end.
+
+(* executing a path: `body` is what the Python code of the callback does (including the calls to C it
+   makes), `nz` the values the noise statements leave in errno *)
+Fixpoint exec_evs (p : list ev) (nz : list Z) (body : list op) (s : ts) : ts * list obs :=
+  match p with
+  | [] => (s, [])
+  | VSave :: r => exec_evs r nz body (save_fn s)
+  | VRestore :: r => exec_evs r nz body (restore_fn s)
+  | VNoise _ :: r => exec_evs r (tl nz) body (mkTs (hd 0 nz) (saved s))
+  | VInvoke :: r =>
+      let '(s1, o1) := run1 s body in
+      let '(s2, o2) := exec_evs r nz body s1 in (s2, o1 ++ o2)
+  end.
+(* the same activity as abstract operations of the thread *)
+Fixpoint inner_ops (mid : list ev) (nz : list Z) (body : list op) : list op :=
+  match mid with
+  | [] => []
+  | VNoise _ :: r => OClobber (hd 0 nz) :: inner_ops r (tl nz) body
+  | VInvoke :: r => body ++ inner_ops r nz body
+  | _ :: r => inner_ops r nz body
+  end.
+
+(* where a well-bracketed sequence of operations ends (None = not well-bracketed) *)
+Fixpoint end_mode (m : mode) (ops : list op) : option mode :=
+  match ops with
+  | [] => Some m
+  | o :: rest =>
+      match m, o with
+      | Py, (OSet _ | OGet | OClobber _) => end_mode Py rest
+      | Py, (OCallEnter | OCbExit) => end_mode InC rest
+      | InC, (OCSet _ | OCRead) => end_mode InC rest
+      | InC, (OCallExit | OCbEnter) => end_mode Py rest
+      | _, _ => None
+      end
+  end.
+
 (* compact encoding (one numeral per step; observations compared through two fingerprints
    computed here — numerals are what costs time in coqc):
    step = ((thread * 16 + opcode) * 2^72) + (value + 2^71) *)
@@ -170,5 +263,14 @@ Definition run_code (n : nat) (sch : list Z) : option (Z * Z) :=
   if forallb (fun t => wf Py (ops_of t s)) (seq 0 n) then
     let r := snd (crun false cs0 s) in
     let flat := flat_map (fun t => let o := map obs_code (obs_of t r) in Z.of_nat (length o) :: o) (seq 0 n) in
+    Some (fpz 2305843009213693951 1000003 flat, fpz 2147483647 48271 flat)
+  else None.
+(* the same with m further threads (ids n .. n+m-1) that are started by C code (pthread_create in a C
+   function called through cffi) and therefore begin their life in C, not in Python *)
+Definition run_code2 (n m : nat) (sch : list Z) : option (Z * Z) :=
+  let s := map decode_step sch in
+  if forallb (fun t => wf Py (ops_of t s)) (seq 0 n) && forallb (fun t => wf InC (ops_of t s)) (seq n m) then
+    let r := snd (crun false cs0 s) in
+    let flat := flat_map (fun t => let o := map obs_code (obs_of t r) in Z.of_nat (length o) :: o) (seq 0 (n + m)) in
     Some (fpz 2305843009213693951 1000003 flat, fpz 2147483647 48271 flat)
   else None.
